@@ -8,11 +8,11 @@ import common
 import corr_omen
 from corr_omen import enc
 
-LETTER_SETS = ['ab', 'abc', 'abcd1', 'aбя', 'xy1!', 'бя', 'a b', 'ab\u3000', ' ab']
+LETTER_SETS = ['ab', 'abc', 'abcd1', 'aбя', 'xy1!', 'бя', 'a b', 'ab\u3000', ' ab', 'a"b', "a'b,", 'a\\b"']
 
 
-def gen_training(rng):
-    letters = rng.choice(LETTER_SETS)
+def gen_training(rng, letters=None):
+    letters = letters or rng.choice(LETTER_SETS)
     ngram = rng.choice([2, 2, 3, 3, 4, 5])
     mode = rng.choice(['mixed', 'mixed', 'len=ngram', 'single-length', 'at-max-length', 'wordlike', 'wordlike'])
     max_length = rng.choice([21, 21, ngram + 1, ngram + 3]) if mode != 'at-max-length' else rng.choice([ngram + 1, ngram + 2, ngram + 4])
